@@ -51,3 +51,211 @@ Proof.
         | apply good_push | apply good_pushx | apply good_pop1 | apply good_popn | apply good_lrem
         | apply good_lpos].
 Qed.
+
+(* ------------------------------------------------------------------ the dispatcher, one step *)
+Definition is_bpop_name (n : bytes) : bool := is n (B "blpop") || is n (B "brpop").
+
+(* every non-blocking list command satisfies its clause of the reference *)
+Theorem lists_step d now nowms n args hint r d' :
+  db_wf d -> lists_ok d -> is_bpop_name n = false ->
+  lists_dispatch d now nowms n args hint = Some (r, d') ->
+  step_ok n args d r d'.
+Proof.
+  intros W Hok NB H. unfold lists_dispatch in H. unfold is_bpop_name in NB.
+  apply orb_false_iff in NB as [NB1 NB2].
+  repeat match type of H with
+         | (if is n ?lit then _ else _) = _ =>
+           let E := fresh "E" in
+           destruct (is n lit) eqn:E;
+           [apply bytes_eqb_eq in E; subst n; inversion H as [H1]; clear H|]
+         end; try discriminate.
+  - apply exec_llen_ok; assumption.
+  - apply exec_lindex_ok; assumption.
+  - apply exec_lpos_ok; assumption.
+  - eapply pop_cmd_ok; [assumption..|exact H1|reflexivity].
+  - eapply pop_cmd_ok; [assumption..|exact H1|reflexivity].
+  - eapply push_cmd_ok; [assumption..|exact H1|reflexivity].
+  - eapply push_cmd_ok; [assumption..|exact H1|reflexivity].
+  - eapply push_cmd_ok; [assumption..|exact H1|reflexivity].
+  - eapply push_cmd_ok; [assumption..|exact H1|reflexivity].
+  - apply exec_lset_ok; assumption.
+  - apply exec_lrem_ok; assumption.
+  - apply exec_ltrim_ok; assumption.
+  - apply exec_lrange_ok; assumption.
+  - apply exec_lmove_ok; assumption.
+Qed.
+
+(* the blocking forms, as one dispatcher step of a client alone *)
+Lemma exec_bpop_cases left d nowms args :
+  (bpop_parse args = None /\ exec_bpop left d nowms args = (err_other, d)) \/
+  (exists keys t, bpop_parse args = Some (keys, t) /\
+     match bpop_try left (purge d ((nowms + 100) / 1000)) keys with
+     | Some (r, d1) => exec_bpop left d nowms args = (r, d1)
+     | None => exec_bpop left d nowms args = (RNil, d)
+     end).
+Proof.
+  unfold exec_bpop. destruct (bpop_parse args) as [[keys t]|] eqn:P.
+  - right. exists keys, t. split; [reflexivity|].
+    rewrite (bpop_run_alone left d nowms args keys t P). unfold bpop_poll.
+    destruct (bpop_try left (purge d ((nowms + 100) / 1000)) keys) as [[r d1]|]; reflexivity.
+  - left. split; [reflexivity|]. unfold bpop_run. rewrite P. reflexivity.
+Qed.
+
+
+(* ------------------------------------------------------------------ invariants, reply well-formedness *)
+Theorem lists_dispatch_inv d now nowms n args hint r d' :
+  db_wf d -> lists_ok d -> lists_dispatch d now nowms n args hint = Some (r, d') ->
+  db_wf d' /\ lists_ok d' /\ reply_wf r = true.
+Proof.
+  intros W Hok H. destruct (is_bpop_name n) eqn:NB.
+  - (* blocking forms *)
+    assert (HB : exists left, exec_bpop left d nowms args = (r, d')).
+    { unfold lists_dispatch in H. unfold is_bpop_name in NB.
+      repeat match type of H with
+             | (if is n ?lit then _ else _) = _ =>
+               let E := fresh "E" in
+               destruct (is n lit) eqn:E;
+               [try (apply bytes_eqb_eq in E; subst n; discriminate NB)|]
+             end.
+      - inversion H. eauto.
+      - inversion H. eauto.
+      - discriminate. }
+    destruct HB as [left HB].
+    destruct (exec_bpop_cases left d nowms args) as [[_ E]|(keys & t & _ & E)].
+    + rewrite E in HB. inversion HB; subst. split; [assumption|split; [assumption|reflexivity]].
+    + pose proof (bpop_try_ok left _ keys (db_wf_purge d ((nowms + 100) / 1000) W)
+                              (lists_ok_purge d ((nowms + 100) / 1000) Hok)) as T.
+      destruct (bpop_try left (purge d ((nowms + 100) / 1000)) keys) as [[r1 d1]|].
+      * rewrite E in HB. inversion HB; subst. destruct T as [Sv U].
+        split; [eapply lupd_wf; [exact U|apply db_wf_purge; exact W]|].
+        split; [eapply lupd_ok; [exact U|apply lists_ok_purge; exact Hok]|].
+        unfold served in Sv. destruct (first_ready left _ keys); [contradiction| |].
+        -- destruct Sv as [-> _]. reflexivity.
+        -- destruct Sv as (-> & _). reflexivity.
+      * rewrite E in HB. inversion HB; subst. split; [assumption|split; [assumption|reflexivity]].
+  - destruct (lists_step d now nowms n args hint r d' W Hok NB H) as (c & RC & A & U).
+    split; [eapply lupd_wf; eassumption|]. split; [eapply lupd_ok; eassumption|].
+    destruct c as [| r0 | k f | src dst fl tl | lf keys t]; cbn [accepts] in A.
+    + destruct A as [-> _]. reflexivity.
+    + (* count 0 *)
+      destruct A as [[->| ->] _]; [reflexivity|].
+      unfold ref_clause, int_arg in RC.
+      repeat match type of RC with
+             | context [if ?c then _ else _] => destruct c
+             end; try discriminate;
+      repeat match type of RC with
+             | context [match ?x with _ => _ end] => destruct x; try discriminate
+             end; inversion RC; reflexivity.
+    + destruct (as_list (raw_view d k)).
+      * destruct A as (-> & _). apply (ref_clause_good n args k f RC).
+      * destruct A as [-> _]. reflexivity.
+    + destruct (as_list (raw_view d src)) as [ls|]; [|destruct A as [-> _]; reflexivity].
+      destruct (take_end fl ls) as [[x ls']|]; [|destruct A as [-> _]; reflexivity].
+      destruct (as_list (raw_view d dst)); [|destruct A as [-> _]; reflexivity].
+      destruct A as (-> & _). reflexivity.
+    + contradiction.
+Qed.
+
+(* with the value invariant as a premise *)
+Theorem lists_dispatch_wf_pres_ok d now nowms n args hint r d' :
+  db_wf d -> lists_ok d -> lists_dispatch d now nowms n args hint = Some (r, d') -> db_wf d'.
+Proof. intros W Hok H. apply (lists_dispatch_inv d now nowms n args hint r d' W Hok H). Qed.
+
+Theorem lists_dispatch_reply_wf_ok d now nowms n args hint r d' :
+  db_wf d -> lists_ok d -> lists_dispatch d now nowms n args hint = Some (r, d') -> reply_wf r = true.
+Proof. intros W Hok H. apply (lists_dispatch_inv d now nowms n args hint r d' W Hok H). Qed.
+
+(* ---- the same two facts without the value invariant (the shapes of CONVENTIONS.md, so that the
+   global theorems compose over [families] with [db_wf] alone): a direct structural pass ---- *)
+Inductive lupd0 : db -> db -> Prop :=
+| lupd0_refl d : lupd0 d d
+| lupd0_set d k v : lupd0 d (db_set d k v)
+| lupd0_del d k : lupd0 d (db_del d k)
+| lupd0_trans d1 d2 d3 : lupd0 d1 d2 -> lupd0 d2 d3 -> lupd0 d1 d3.
+
+Lemma lupd0_wf d d' : lupd0 d d' -> db_wf d -> db_wf d'.
+Proof. induction 1; intros W; auto using db_wf_set, db_wf_del. Qed.
+Lemma lupd0_put d k l : lupd0 d (put_list d k l).
+Proof. destruct l; constructor. Qed.
+
+Definition res_ok (d : db) (x : reply * db) : Prop := lupd0 d (snd x) /\ reply_wf (fst x) = true.
+
+Ltac res_done :=
+  split; cbn [fst snd];
+  [first [apply lupd0_refl | apply lupd0_set | apply lupd0_del | apply lupd0_put
+         | eapply lupd0_trans; [apply lupd0_put|apply lupd0_set]]
+  |first [reflexivity | apply wf_bulks | apply wf_ints | cbn [reply_wf]; first [apply wf_bulks | apply wf_ints]]].
+
+Ltac crunch :=
+  repeat match goal with
+         | |- res_ok _ (match ?x with _ => _ end) => destruct x
+         | |- res_ok _ (if ?c then _ else _) => destruct c
+         | |- res_ok _ (let '(_, _) := ?x in _) => destruct x
+         end; try res_done.
+
+Lemma res_llen d args : res_ok d (exec_llen d args).
+Proof. unfold exec_llen. crunch. Qed.
+Lemma res_lindex d args : res_ok d (exec_lindex d args).
+Proof. unfold exec_lindex. crunch. Qed.
+Lemma res_lrange d args : res_ok d (exec_lrange d args).
+Proof. unfold exec_lrange. crunch. Qed.
+Lemma res_ltrim d args : res_ok d (exec_ltrim d args).
+Proof. unfold exec_ltrim. crunch. Qed.
+Lemma res_lset d args : res_ok d (exec_lset d args).
+Proof. unfold exec_lset. crunch. Qed.
+Lemma res_lrem d args : res_ok d (exec_lrem d args).
+Proof. unfold exec_lrem. crunch. Qed.
+Lemma res_push l c d args : res_ok d (push_cmd l c d args).
+Proof. unfold push_cmd. crunch. Qed.
+Lemma res_pop l d args : res_ok d (pop_cmd l d args).
+Proof. unfold pop_cmd. crunch. Qed.
+Lemma res_lmove d args : res_ok d (exec_lmove d args).
+Proof. unfold exec_lmove. cbv zeta. crunch. Qed.
+Lemma res_lpos d args : res_ok d (exec_lpos d args).
+Proof. unfold exec_lpos. cbv zeta. crunch. destruct (lp_count l); res_done. Qed.
+
+Lemma res_bpop_try left d keys :
+  match bpop_try left d keys with Some x => res_ok d x | None => True end.
+Proof.
+  induction keys as [|k rest IH]; cbn [bpop_try]; [exact I|].
+  destruct (get_list d k) as [| |l]; [exact IH|res_done|].
+  destruct left; [destruct l|destruct (rev l)]; try exact IH; res_done.
+Qed.
+
+Lemma res_bpop left d nowms args : db_wf d -> db_wf (snd (exec_bpop left d nowms args)) /\
+                                   reply_wf (fst (exec_bpop left d nowms args)) = true.
+Proof.
+  intros W. destruct (exec_bpop_cases left d nowms args) as [[_ E]|(keys & t & _ & E)].
+  - rewrite E. split; [exact W|reflexivity].
+  - pose proof (res_bpop_try left (purge d ((nowms + 100) / 1000)) keys) as T.
+    destruct (bpop_try left (purge d ((nowms + 100) / 1000)) keys) as [[r1 d1]|]; rewrite E; cbn [fst snd].
+    + destruct T as [U Rw]. split; [|exact Rw]. eapply lupd0_wf; [exact U|apply db_wf_purge; exact W].
+    + split; [exact W|reflexivity].
+Qed.
+
+Lemma lists_dispatch_res d now nowms n args hint r d' :
+  db_wf d -> lists_dispatch d now nowms n args hint = Some (r, d') -> db_wf d' /\ reply_wf r = true.
+Proof.
+  intros W H. unfold lists_dispatch in H.
+  assert (G : forall x, res_ok d x -> Some x = Some (r, d') -> db_wf d' /\ reply_wf r = true).
+  { intros x [U Rw] E. inversion E; subst. split; [eapply lupd0_wf; eassumption|exact Rw]. }
+  assert (GB : forall left, Some (exec_bpop left d nowms args) = Some (r, d') -> db_wf d' /\ reply_wf r = true).
+  { intros left E. inversion E as [E1]. pose proof (res_bpop left d nowms args W) as [A Bq].
+    rewrite E1 in A, Bq. split; assumption. }
+  repeat match type of H with
+         | (if ?c then _ else _) = _ => destruct c
+         end; try discriminate;
+  first [ apply (GB _ H)
+        | eapply G; [|exact H];
+          first [apply res_llen | apply res_lindex | apply res_lpos | apply res_pop | apply res_push
+                | apply res_lset | apply res_lrem | apply res_ltrim | apply res_lrange | apply res_lmove] ].
+Qed.
+
+(* the two shapes of CONVENTIONS.md *)
+Theorem lists_dispatch_wf_pres d now nowms n args hint r d' :
+  db_wf d -> lists_dispatch d now nowms n args hint = Some (r, d') -> db_wf d'.
+Proof. intros W H. apply (lists_dispatch_res d now nowms n args hint r d' W H). Qed.
+
+Theorem lists_dispatch_reply_wf d now nowms n args hint r d' :
+  db_wf d -> lists_dispatch d now nowms n args hint = Some (r, d') -> reply_wf r = true.
+Proof. intros W H. apply (lists_dispatch_res d now nowms n args hint r d' W H). Qed.
